@@ -67,6 +67,8 @@ def run(tier, seed):
     if not quick:
         builds += harness.make_many(tc, [s + 500 for s in seeds[:10]], prof, atoms=10, composites=8,
                                     options=("-fwide-types",))
+    from ..asn import shapes
+    builds.append(harness.make(tc, seed * 1000 + 999, prof, module_fn=lambda g: shapes.build("SH")))
     all_pairs = [(a, b) for a in SYNS for b in SYNS]
     for b in builds:
         if b.exe is None:
@@ -77,7 +79,11 @@ def run(tier, seed):
         cases, meta = [], {}
         cid = 0
         for tname, t in b.mod.types.items():
-            vals = b.gen.values(t, nvals)
+            if b.mod.name == "SH":
+                b.gen.mod = b.mod
+                vals = shapes.values(b.mod, tname, rng, quick)
+            else:
+                vals = b.gen.values(t, nvals)
             for v in vals:
                 ref = harness.ref_der(b, t, v)
                 if ref is None:
@@ -93,6 +99,9 @@ def run(tier, seed):
                     # every S1 always, a rotating subset of S2 (all 25 pairs are covered across values)
                     k = cid % 5
                     pairs = [(x, y) for (x, y) in pairs if (SYNS.index(y) + SYNS.index(x)) % 5 in (k, (k + 1) % 5)]
+                if b.mod.name == "SH" and len(ref) > 2000:
+                    # long boundary values: every syntax once (then DER), not all 25 pairs
+                    pairs = [(x, "DER") for x in syns]
                 if not pairs:
                     continue
                 ops, plan = chain_ops(tname, pairs)
@@ -132,6 +141,8 @@ def run(tier, seed):
             ev = r.events
             if not ev or ev[0].get("rc") != "OK" or int(ev[0].get("consumed", -1)) != len(ref):
                 chk.inconcl("entry decode of reference DER failed (C03)")
+                if os.environ.get("VERIF_SHOW_ENTRY"):
+                    print("ENTRY", tname, model.type_text(t, 0)[:300].replace("\n", " "), gen.value_repr(v, 200), ref.hex()[:120], ev[0] if ev else None)
                 continue
             d0 = ev[1].get("out")
             if int(ev[1].get("rc", -1)) < 0:
